@@ -45,6 +45,12 @@ def scenarios(wd):
                         "getrules 0 0", "cdestroy 0", "scanner 0 0", "data 1 " + yv.hx(b"abcdexyzq deadbeef-12 fooXXbar " + b"".join(bytes([c, 0]) for c in b"cafe01-77")),
                         "scan 0 1 mem - - -", "sdestroy 0", "rdestroy 0"]
     S["regex_heavy"].insert(1, "cdefine 0 s ext 6161626262")
+    import base64 as _b64
+    enc = lambda t, i: _b64.b64encode(b"Z" * i + t)[(4 if i else 0):]
+    wide = lambda t: b"".join(bytes([c, 0]) for c in t)
+    b64data = b" ".join(enc(b"This prog", i) for i in range(3)) + b" " + b" ".join(wide(enc(b"This prog", i)) for i in range(3)) + b" " + enc(b"2nd text", 1)
+    S["base64"] = ["compiler 0", "add 0 - " + yv.hx(b'rule b { strings: $a = "This prog" base64 base64wide $b = "2nd text" base64 condition: #a == 6 and $b }'),
+                   "getrules 0 0", "cdestroy 0", "scanner 0 0", "data 1 " + yv.hx(b64data), "scan 0 1 mem - - -", "sdestroy 0", "rdestroy 0"]
     S["manyrules"] = ["compiler 0", "add 0 - " + yv.hx("\n".join('rule r%d : t%d { meta: i = %d strings: $a = "K%dQ" $b = { 4B %02X ?? 51 } condition: $a or $b }' % (i, i, i, i, i) for i in range(40)).encode()),
                       "getrules 0 0", "cdestroy 0", "scanner 0 0", "data 1 " + yv.hx(b"K7Q K\x05zQ K39Q"), "scan 0 1 mem - - -", "sdestroy 0", "rdestroy 0"]
     return S
@@ -71,6 +77,7 @@ def op_results(evs):
     pend = None
     health, heap = None, None
     ops = []
+    RESULTS = []
     for e in evs:
         if e["e"] == "Fault":
             faulted = True
@@ -82,8 +89,11 @@ def op_results(evs):
             health = e["msg"]; continue
         if e.get("sid") == 9 or e.get("cid") == 9 or e.get("rid") == 9:
             continue
+        if e["e"] == "Cb":
+            RESULTS.append(json.dumps([e.get("sid"), e.get("msg"), e.get("rule"), e.get("strings")], sort_keys=True))
         if e["e"] in OPS:
             ops.append({"op": OPS[e["e"]], "ev": e["e"], "ret": e.get("ret", 0), "errors": e.get("errors", 0), "skipped": "skipped" in e, "fault": faulted})
+    if ops: ops[0]["results"] = RESULTS       # what the callbacks of the scenario's scans reported, in order
     return ops, health, heap
 
 
@@ -116,7 +126,11 @@ def run_chunk(exe, name, body, warm, chunk, wd, idx, kf):
                     continue
                 records.append({"kind": "apiop", "op": o["op"], "ret": o["ret"], "normal": bops[i]["ret"], "errors": o["errors"], "fault": o["fault"], "allowed": [1]})
                 owners.append((name, k, s, o["ev"], i, stack))
-            records.append({"kind": "apirun", "health": health or "none", "health_normal": body["_bhealth"] or "none", "heap_delta": heap - heap_prev})
+            # a failure that every operation absorbed (all results as in the fault-free run) must not change what the scans report
+            absorbed = len(ops) == len(bops) and all((not o["skipped"]) and o["ev"] == b_["ev"] and o["ret"] == b_["ret"] for o, b_ in zip(ops, bops))
+            same = (ops[0].get("results") == bops[0].get("results")) if ops and bops else True
+            records.append({"kind": "apirun", "health": health or "none", "health_normal": body["_bhealth"] or "none", "heap_delta": heap - heap_prev,
+                            "absorbed": absorbed, "same_results": same})
             owners.append((name, k, s, "run", -1, stack))
             heap_prev = heap
         if done < len(pending):
@@ -225,13 +239,13 @@ def c16(res, tier, seed):
         if key in seen:
             continue
         seen.add(key)
-        what = ("heap grew by %s bytes / health check %s" % (records[b]["heap_delta"], records[b]["health"])) if ev == "run" else ("%s returned %s (fault-free: %s)" % (ev, records[b]["ret"], records[b]["normal"]))
+        what = ("heap grew by %s bytes / health check %s%s" % (records[b]["heap_delta"], records[b]["health"], " / every operation reported success but the scans report something else than without the failure" if records[b].get("absorbed") and not records[b].get("same_results") else "")) if ev == "run" else ("%s returned %s (fault-free: %s)" % (ev, records[b]["ret"], records[b]["normal"]))
         res.violation("scenario %s, allocation %d failing (%s): %s; allocation site %s" % (name, k, "sticky" if s else "single", what, site),
                       yv.save_replay("C16", "bad_%s_%d_%d_%s" % (name, k, s, ev), {"scenario": name, "k": k, "sticky": s, "record": records[b], "stack": stack, "script": body}))
     res.sample({"scenario": "strings", "script": S["strings"][:4], "allocations": res.cov["parts"].get("allocs_strings")})
     res.level = "fault_enumeration"
     res.cov["exhaustive"] = tier != "quick" and all(exhaustive.values())
-    res.cov["rule"] = ("9 scenarios (strings of every kind incl. chains; 7 modules on a PE; externals at 3 levels; nested includes / namespaces / tags / metas; save+load via file "
+    res.cov["rule"] = ("10 scenarios (strings of every kind incl. chains; base64 / base64wide strings; 7 modules on a PE; externals at 3 levels; nested includes / namespaces / tags / metas; save+load via file "
                        "and stream; block iterator with not-ready, abort, hashing; suspended scans abandoned and followed by new scans; heavy regexes + matches; 40 rules). For each: every k in 1..N (N = allocations of the scenario; "
                        "quick: every k up to 800 allocations, else 400 sampled + first 11 + last 9, alternating single / sticky; thorough: every k up to %d allocations, else %d sampled + 200 at both ends), single and sticky failure; each operation "
                        "judged by ApiLifecycle!OpOK, each run by RunOK; distinct = (scenario, k, mode)" % (CAP, CAP))
